@@ -254,6 +254,7 @@ type NetOpts struct {
 	IPFS        ipfscluster.IPFSConnector
 	RealMon     bool
 	NoWaitReady bool
+	Informers   []ipfscluster.Informer
 }
 
 // StartPeer boots a real Cluster peer with real consensus on a real host.
@@ -293,6 +294,7 @@ func StartPeer(ctx context.Context, p *NetPeer, o NetOpts) error {
 		Tune:        o.Tune,
 		Monitor:     mon,
 		RealMon:     o.RealMon,
+		Informers:   o.Informers,
 		Tracker:     tracker,
 		IPFS:        ipfs,
 		Consensus: func(h host.Host, ps *pubsub.PubSub, d *dual.DHT, store ds.Datastore, _ *ipfscluster.Config) (ipfscluster.Consensus, error) {
